@@ -67,6 +67,11 @@ type c01Inf struct {
 	w2Going  bool          // a probed W2 is under way (blocked on the lock or unexpectedly done)
 
 	pendingW2Done bool // a probed W2 completed on the implementation although the model says blocked
+
+	// flagReadEarly: the hand-over that was probed inside the unlock (blocked on eventBufLock) got the
+	// lock the moment the unlock returned and reached its yield point BEFORE the harness saw the unlock
+	// return (both channels ready, select picks either): kept parked for the w2 step that follows.
+	flagReadEarly *verifsched.Arrival
 }
 
 func newC01Inf(key string, types []string, jq, keepFull bool) *c01Inf {
@@ -98,13 +103,23 @@ func newC01Inf(key string, types []string, jq, keepFull bool) *c01Inf {
 	return inf
 }
 
+// c01Rel releases an arrival that may have been released already (after a `hang` the bookkeeping of
+// who is parked is not reliable any more).
+func c01Rel(a *verifsched.Arrival) {
+	defer func() { _ = recover() }()
+	a.Release()
+}
+
 func (inf *c01Inf) close() {
 	sched.Unsubscribe(inf.key)
+	if inf.flagReadEarly != nil {
+		c01Rel(inf.flagReadEarly)
+	}
 	if inf.wParked != nil {
-		inf.wParked.Release()
+		c01Rel(inf.wParked)
 	}
 	for _, a := range inf.rdParked {
-		a.Release()
+		c01Rel(a)
 	}
 	for {
 		select {
@@ -266,7 +281,11 @@ func (inf *c01Inf) w2(c *Case, probeE bool) string {
 		inf.wParked.Release()
 	}
 	inf.w2Going = false
-	a := inf.waitArrival("informer.watch.flagRead", c01Wait)
+	a := inf.flagReadEarly
+	inf.flagReadEarly = nil
+	if a == nil {
+		a = inf.waitArrival("informer.watch.flagRead", c01Wait)
+	}
 	if a == nil {
 		return "hang"
 	}
@@ -291,6 +310,10 @@ func (inf *c01Inf) probeE() string {
 	for {
 		select {
 		case a := <-inf.arrive:
+			if a.Name == "informer.watch.flagRead" && inf.w2Going && inf.flagReadEarly == nil {
+				inf.flagReadEarly = a // a probed hand-over, not the unlock: parked for its w2 step
+				continue
+			}
 			// it got the lock although the model says it is held: let it run to its end
 			a.Release()
 		case <-done:
@@ -342,6 +365,12 @@ func (inf *c01Inf) eProbing(c *Case) string {
 	for {
 		select {
 		case a := <-inf.arrive:
+			if a.Name == "informer.watch.flagRead" && inf.w2Going && inf.flagReadEarly == nil {
+				// the unlock has returned (the probed hand-over could take eventBufLock) but `done` has
+				// not been seen yet: keep the hand-over parked for the w2 step
+				inf.flagReadEarly = a
+				continue
+			}
 			if c != nil && strings.HasPrefix(a.Name, "informer.enable.") && inf.wEv != nil && !inf.pendingW2Done {
 				// at EVERY yield point of the unlock: the parked hand-over must still be blocked
 				if !inf.w2Going {
@@ -543,6 +572,10 @@ func (inf *c01Inf) finishE() string {
 	for {
 		select {
 		case a := <-inf.arrive:
+			if a.Name == "informer.watch.flagRead" && inf.w2Going && inf.flagReadEarly == nil {
+				inf.flagReadEarly = a // a probed hand-over got the lock first: parked for its w2 step
+				continue
+			}
 			a.Release() // the yield points inside the unlock itself
 			continue
 		case <-inf.eDone:
